@@ -3,7 +3,6 @@ module github.com/go-task/task/v3/verifh
 go 1.23.0
 
 require (
-	github.com/anishathalye/porcupine v1.3.0
 	github.com/go-task/task/v3 v3.0.0
 	gopkg.in/yaml.v3 v3.0.1
 )
